@@ -75,7 +75,7 @@ pub fn emit(seed: u64, n: usize, max_ops: u64) {
     let (colors, names) = textgen::all_colors();
     for case in 0..n {
         let pr = r.cad().abs() + 0.01; let er = r.cad().abs() + 0.01; let seg = 4 + r.below(9);
-        let nops = if case % 11 == 0 { 0 } else { 1 + r.below(max_ops) };
+        let nops = if case % 11 == 0 { 0 } else { 1 + r.below(max_ops) };   // (case 1 always has at least one call: see forced_vertical)
         let mut ops: Vec<Box<dyn Fn(&mut Viewer)>> = Vec::new();
         let mut edges_of: Vec<Option<Vec<(Pt3, Pt3)>>> = Vec::new();
         let mut pts_of: Vec<Option<(Vec<Pt3>, ScadColor, bool)>> = Vec::new();
@@ -83,7 +83,10 @@ pub fn emit(seed: u64, n: usize, max_ops: u64) {
         let mut terms: Vec<String> = Vec::new();
         for _ in 0..nops {
             let ci = r.below(colors.len() as u64) as usize; let col = colors[ci]; let c = format!("{}%N", ci);
-            match r.below(13) {
+            // the second history of every run starts with one add_lines3d of nine exactly vertical edges: upward and downward,
+            // ending below, at and above z = 0, starting at 0 -- every sign pattern of start.z, end.z and end.z - start.z
+            let forced_vertical = case == 1 && terms.is_empty();
+            match if forced_vertical { 5 } else { r.below(13) } {
                 0 => { let p = g2(&mut r); pts_of.push(Some((vec![p.as_pt3(0.0)], col, true))); col_of.push(None); ops.push(Box::new(move |v: &mut Viewer| v.add_pt2(p, col))); edges_of.push(None); terms.push(format!("VPt2 {} {}", t2(p), c)); }
                 1 => { let p = g3(&mut r); pts_of.push(Some((vec![p], col, true))); col_of.push(None); ops.push(Box::new(move |v: &mut Viewer| v.add_pt3(p, col))); edges_of.push(None); terms.push(format!("VPt3 {} {}", t3(p), c)); }
                 2 => { let k = r.below(4); let l: Vec<Pt2> = (0..k).map(|_| g2(&mut r)).collect(); pts_of.push(Some((l.iter().map(|p| p.as_pt3(0.0)).collect(), col, false))); col_of.push(None); { let l2 = l.clone(); ops.push(Box::new(move |v: &mut Viewer| v.add_pt2s(&Pt2s::from_pt2s(l2.clone()), col))); edges_of.push(None); }
@@ -92,7 +95,10 @@ pub fn emit(seed: u64, n: usize, max_ops: u64) {
                        terms.push(format!("VPt3s [{}] {}", l.iter().map(|p| t3(*p)).collect::<Vec<_>>().join("; "), c)); }
                 4 => { let k = r.below(3); let l: Vec<(Pt2, Pt2)> = (0..k).map(|_| edge2(&mut r)).collect(); pts_of.push(None); col_of.push(Some(col)); { let l2 = l.clone(); edges_of.push(Some(l.iter().map(|e| (e.0.as_pt3(0.0), e.1.as_pt3(0.0))).collect())); ops.push(Box::new(move |v: &mut Viewer| v.add_lines2d(&l2, col))); }
                        terms.push(format!("VLines2 [{}] {}", l.iter().map(|e| format!("({}, {})", t2(e.0), t2(e.1))).collect::<Vec<_>>().join("; "), c)); }
-                5 => { let k = r.below(5); let l: Vec<(Pt3, Pt3)> = (0..k).map(|_| edge3(&mut r)).collect(); pts_of.push(None); col_of.push(Some(col)); { let l2 = l.clone(); edges_of.push(Some(l.clone())); ops.push(Box::new(move |v: &mut Viewer| v.add_lines3d(&l2, col))); }
+                5 => { let k = r.below(5); let mut l: Vec<(Pt3, Pt3)> = (0..k).map(|_| edge3(&mut r)).collect();
+                       if forced_vertical { let (x, y) = (r.cad(), r.cad());
+                           l = [(-20.0, 7.5), (-5.0, 7.5), (1.5, 7.5), (-7.5, 7.5), (0.0, 7.5), (30.0, -3.25), (1.5, -3.25), (-1.0, -3.25), (3.25, -3.25), (0.0, -3.25)]
+                               .iter().map(|(z0, dz)| (Pt3::new(x, y, *z0), Pt3::new(x, y, z0 + dz))).collect(); } pts_of.push(None); col_of.push(Some(col)); { let l2 = l.clone(); edges_of.push(Some(l.clone())); ops.push(Box::new(move |v: &mut Viewer| v.add_lines3d(&l2, col))); }
                        terms.push(format!("VLines3 [{}] {}", l.iter().map(|e| format!("({}, {})", t3(e.0), t3(e.1))).collect::<Vec<_>>().join("; "), c)); }
                 6 => { pts_of.push(None); col_of.push(None); let (s, cc, e, sg) = (g2(&mut r), g2(&mut r), g2(&mut r), 1 + r.below(4)); ops.push(Box::new(move |v: &mut Viewer| v.add_quadratic_bezier2d(&QuadraticBezier2D::new(s, cc, e, sg)))); edges_of.push(None);
                        terms.push(format!("VQuad2 {} {} {} {}%Z", t2(s), t2(cc), t2(e), sg)); }
